@@ -333,6 +333,166 @@ Section Instance.
   Proof.
     intros A R. destruct (add_change_ok fuel addr extra s o I A) as [_ Q]. rewrite R in Q. exact Q.
   Qed.
+  (* ----------------------------------------------------------------------------------------- *)
+  (* pack_nfts_for_change: which bundles it returns.
+     A value FITS when its serialised size is within max_value_size at some coin (the packer tests every candidate
+     at the min ADA of a fake one-policy output, a coin that is later replaced; a different coin moves the size by
+     at most 8 bytes, lemma fits_any_coin).  Every bundle the packer returns is
+       - empty, or
+       - the bundle of a value that was TESTED and fits, or
+       - the re-normalisation v + {policy: {}} of such a value / of the empty output (a policy whose very first asset
+         overflowed: the output is closed as it stood),
+     PROVIDED every single asset of the change fits an output of its own -- the asset that caused a split is put into
+     the fresh output without a test (witness pack_untested_witness below shows the premise is needed). *)
+  Definition fits (v : value) : Prop := exists c, value_too_big_c e (value_set_coin c v) = false.
+  Definition out_inv (v : value) : Prop := multiasset_of v = Some ma_new \/ fits v.
+  Definition empty_policy_value (p : bytes) : value :=
+    value_set_multiasset (ma_insert p assets_new ma_new) (value_new 0).
+  Definition bundle_ok (b : multiasset) : Prop :=
+    b = ma_new \/
+    (exists v, fits v /\ multiasset_of v = Some b) \/
+    (exists v p v', out_inv v /\ value_checked_add v (empty_policy_value p) = Ok v' /\ multiasset_of v' = Some b).
+  Definition single_fits (policy : bytes) (a : assets) : Prop :=
+    forall name q, In (name, q) a ->
+      value_too_big_c e (mkValue 0 (Some [(policy, [(name, q)])])) = false.
+
+  Lemma hoare_askS_final J P v :
+    hoare J P (askS orc v) (fun b s => P s /\ b = value_too_big_c e v).
+  Proof.
+    intros s o Js Ps. unfold askS. cbn [out_st out_res]. split; [exact Js|]. split; [exact Ps|]. apply (proj2 SE).
+  Qed.
+
+  Definition policy_value (policy : bytes) (a : assets) : value :=
+    value_set_multiasset (ma_insert policy a ma_new) (value_new 0).
+
+  Lemma will_overflow_exact P out cur policy name q :
+    hoare J0 P (will_adding_asset_make_output_overflow orc out cur policy name q)
+      (fun ov s => P s /\ exists ac m,
+         value_checked_add out (policy_value policy (assets_insert name q cur)) = Ok ac /\
+         ov = value_too_big_c e (value_set_coin m ac)).
+  Proof.
+    unfold will_adding_asset_make_output_overflow. apply hoare_lift_bind. intros ac Eac.
+    apply hoare_pure_bind; [apply pure_askA|]. intros m.
+    eapply hoare_conseq; [apply hoare_askS_final | intros s _ H; exact H |].
+    intros ov s _ [Ps Eov]. split; [exact Ps|]. exists ac, m. split; [exact Eac | exact Eov].
+  Qed.
+
+  Record acc_inv (policy : bytes) (a : pack_acc) : Prop := mkAccInv {
+    ai_out : out_inv (pa_output a);
+    ai_old : out_inv (pa_old a);
+    ai_next : pa_next a = ma_new;
+    ai_reb : pa_rebuilt a = assets_new \/
+             exists v', value_checked_add (pa_output a) (policy_value policy (pa_rebuilt a)) = Ok v' /\ fits v';
+    ai_changes : Forall bundle_ok (pa_changes a)
+  }.
+
+  Lemma empty_output_inv : out_inv (@empty_output_amount).
+  Proof. left. reflexivity. Qed.
+
+  Lemma single_after_split policy name q :
+    value_too_big_c e (mkValue 0 (Some [(policy, [(name, q)])])) = false ->
+    exists v', value_checked_add empty_output_amount (policy_value policy (assets_insert name q assets_new)) = Ok v' /\ fits v'.
+  Proof.
+    intros H. exists (mkValue 0 (Some [(policy, [(name, q)])])). split; [reflexivity|].
+    exists 0. exact H.
+  Qed.
+
+  Lemma pack_policy_assets_fits P policy l : forall a,
+    single_fits policy l -> acc_inv policy a ->
+    hoare J0 P (pack_policy_assets orc policy l a) (fun a' s => P s /\ acc_inv policy a').
+  Proof.
+    induction l as [|[name q] r IH]; intros a SF AI; cbn [pack_policy_assets].
+    - apply hoare_ret'. intros s _ Ps. split; [exact Ps | exact AI].
+    - eapply hoare_bind; [apply will_overflow_exact|]. intros ov. cbn beta.
+      apply hoare_pre_pure with
+        (phi := exists ac m, value_checked_add (pa_output a) (policy_value policy (assets_insert name q (pa_rebuilt a))) = Ok ac /\
+                             ov = value_too_big_c e (value_set_coin m ac));
+        [intros s _ [_ H]; exact H|]. intros (ac & m & Eac & Eov).
+      apply hoare_weaken with (P := P); [intros s _ [Ps _]; exact Ps|].
+      set (mid := fun a' : pack_acc =>
+             out_inv (pa_output a') /\ out_inv (pa_old a') /\ pa_next a' = ma_new /\ Forall bundle_ok (pa_changes a') /\
+             exists v', value_checked_add (pa_output a') (policy_value policy (assets_insert name q (pa_rebuilt a'))) = Ok v' /\ fits v').
+      eapply hoare_bind with (Q := fun a' s => P s /\ mid a').
+      + destruct ov.
+        * (* split: close the output as it stands, start a fresh one with this asset *)
+          apply hoare_lift_bind. intros out_amount Eout.
+          unfold unwrap_ma. destruct (multiasset_of out_amount) as [mm|] eqn:Emm; [|apply hoare_fail; discriminate].
+          match goal with |- hoare _ _ (bindM (ret ?x) ?g) _ => change (bindM (ret x) g) with (g x) end. cbn beta.
+          apply hoare_ret'. intros s _ Ps. split; [exact Ps|]. unfold mid. cbn [pa_output pa_old pa_next pa_rebuilt pa_changes].
+          split; [apply empty_output_inv|]. split; [apply empty_output_inv|]. split; [reflexivity|]. split.
+          -- apply Forall_app. split; [exact (ai_changes _ _ AI)|]. constructor; [|constructor].
+             rewrite (ai_next _ _ AI) in Eout.
+             destruct (ai_reb _ _ AI) as [Er | (v' & Ev' & Fv')].
+             ++ right. right. exists (pa_output a), policy, out_amount. split; [exact (ai_out _ _ AI)|].
+                rewrite Er in Eout. split; [exact Eout | exact Emm].
+             ++ right. left. exists out_amount. unfold policy_value in Ev'. rewrite Eout in Ev'. inversion Ev'; subst v'.
+                split; [exact Fv' | exact Emm].
+          -- apply single_after_split. apply SF. left. reflexivity.
+        * (* no overflow: the tested value is the new candidate *)
+          apply hoare_ret'. intros s _ Ps. split; [exact Ps|]. unfold mid.
+          split; [exact (ai_out _ _ AI)|]. split; [exact (ai_old _ _ AI)|]. split; [exact (ai_next _ _ AI)|].
+          split; [exact (ai_changes _ _ AI)|]. exists ac. split; [exact Eac|]. exists m. symmetry. exact Eov.
+      + intros a'. cbn beta.
+        apply hoare_pre_pure with (phi := mid a'); [intros s _ [_ H]; exact H|]. intros (M1 & M2 & M3 & M4 & M5).
+        apply hoare_weaken with (P := P); [intros s _ [Ps _]; exact Ps|].
+        apply IH; [intros n' q' Hin; apply SF; right; exact Hin|].
+        constructor; cbn [pa_output pa_old pa_next pa_rebuilt pa_changes]; auto.
+  Qed.
+
+  Definition all_single_fit (m : multiasset) : Prop := Forall (fun pa => single_fits (fst pa) (snd pa)) m.
+
+  Lemma pack_policies_fits P l : forall out changes,
+    all_single_fit l -> out_inv out -> Forall bundle_ok changes ->
+    hoare J0 P (pack_policies orc l out changes)
+      (fun r s => P s /\ out_inv (fst r) /\ Forall bundle_ok (snd r)).
+  Proof.
+    induction l as [|[policy a] r IH]; intros out changes SF OI CH; cbn [pack_policies].
+    - apply hoare_ret'. intros s _ Ps. cbn [fst snd]. auto.
+    - inversion SF as [|x y SF1 SF2]; subst. cbn [fst snd] in SF1.
+      eapply hoare_bind.
+      + apply (pack_policy_assets_fits P policy a (mkPack out out ma_new assets_new changes) SF1).
+        constructor; cbn [pa_output pa_old pa_next pa_rebuilt pa_changes]; auto.
+      + intros acc. cbn beta.
+        apply hoare_pre_pure with (phi := acc_inv policy acc); [intros s _ [_ H]; exact H|]. intros AI.
+        apply hoare_weaken with (P := P); [intros s _ [Ps _]; exact Ps|].
+        apply hoare_lift_bind. intros out_amount Eout.
+        apply hoare_pure_bind; [apply pure_askA|]. intros m.
+        eapply hoare_bind; [apply hoare_askS_final|]. intros big. cbn beta.
+        apply hoare_pre_pure with (phi := big = value_too_big_c e (value_set_coin m out_amount));
+          [intros s _ [_ H]; exact H|]. intros Ebig.
+        apply hoare_weaken with (P := P); [intros s _ [Ps _]; exact Ps|].
+        destruct big.
+        * apply hoare_ret'. intros s _ Ps. cbn [fst snd]. split; [exact Ps|]. split; [exact (ai_old _ _ AI) | exact (ai_changes _ _ AI)].
+        * apply IH; [exact SF2 | right; exists m; symmetry; exact Ebig | exact (ai_changes _ _ AI)].
+  Qed.
+
+  Theorem pack_nfts_fits P ce ma :
+    multiasset_of ce = Some ma -> all_single_fit ma ->
+    hoare J0 P (pack_nfts_for_change orc ce) (fun l s => P s /\ Forall bundle_ok l).
+  Proof.
+    intros Ema SF. unfold pack_nfts_for_change. rewrite Ema. unfold unwrap_ma at 1.
+    match goal with |- hoare _ _ (bindM (ret ?x) ?g) _ => change (bindM (ret x) g) with (g x) end. cbn beta.
+    eapply hoare_bind.
+    - apply (pack_policies_fits P ma); [exact SF | left; reflexivity | constructor].
+    - intros r. cbn beta.
+      apply hoare_pre_pure with (phi := out_inv (fst r) /\ Forall bundle_ok (snd r)); [intros s _ [_ H]; exact H|].
+      intros [OI CH]. apply hoare_weaken with (P := P); [intros s _ [Ps _]; exact Ps|].
+      unfold unwrap_ma. destruct (multiasset_of (fst r)) as [last|] eqn:El; [|apply hoare_fail; discriminate].
+      match goal with |- hoare _ _ (bindM (ret ?x) ?g) _ => change (bindM (ret x) g) with (g x) end. cbn beta.
+      apply hoare_ret'. intros s _ Ps. split; [exact Ps|]. apply Forall_app. split; [exact CH|].
+      constructor; [|constructor]. destruct OI as [E | F].
+      + left. congruence.
+      + right. left. exists (fst r). split; [exact F | exact El].
+  Qed.
+
+  (* a different coin moves the size of a value by at most 8 bytes *)
+  Lemma fits_any_coin v c : fits v ->
+    OutputSize.value_size c (shape_ma (multiasset_of v)) <= MinAda.c_max_value_size (ce_cfg e) + 8.
+  Proof.
+    intros [c0 H]. unfold value_too_big_c in H. cbn [value_set_coin coin multiasset_of] in H. apply N.ltb_ge in H.
+    rewrite !MinAdaProofs.value_size_decomp in *.
+    pose proof (head_size_bounds c). pose proof (head_size_bounds c0). lia.
+  Qed.
 End Instance.
 
 (* the two theorems together on the fully concrete oracle: a successful add_change leaves a ledger-balanced
@@ -347,4 +507,24 @@ Proof.
   - apply (add_change_all_ok (c07_oracle e) e (c07_oracle_sizes_exact e) fuel addr extra s tt b A R).
   - pose proof (add_change_balances (c07_oracle e) (c07_oracle_u64 e) (s_cfg s) fuel addr extra s tt) as H.
     destruct (H (conj W eq_refl) I) as [_ Q]. fold s' in Q. unfold s' in Q. rewrite R in Q. exact Q.
+Qed.
+
+(* the premise [all_single_fit] is needed: max_value_size 40, one policy with two 32-byte names.  The first asset
+   overflows at once (the output is closed empty), is put into the fresh output untested, and when the second one
+   overflows too that output -- 69 bytes at any coin -- is returned *)
+Definition w_env : cenv :=
+  mkCEnv (MinAda.mkCfg 4310 40 16384) (fun _ => 57) (fun _ => (OutputSize.DNone, None)) 44 155381 1.
+Definition w_change : value :=
+  mkValue 5000000 (Some [(repeat 7 28, [(repeat 1 32, 1); (repeat 2 32, 1)])]).
+Theorem pack_untested_witness :
+  exists l b,
+    out_res (pack_nfts_for_change (c07_oracle w_env) w_change (new_state (mkConfig 0 0 false false)) tt) = Ok l /\
+    In b l /\
+    forall c, MinAda.c_max_value_size (ce_cfg w_env) < OutputSize.value_size c (shape_ma (Some b)).
+Proof.
+  eexists. exists [(repeat 7 28, [(repeat 1 32, 1)])]. split; [vm_compute; reflexivity|]. split.
+  - right. left. reflexivity.
+  - intros c. rewrite MinAdaProofs.value_size_decomp. pose proof (head_size_bounds c).
+    change (MinAda.c_max_value_size (ce_cfg w_env)) with 40.
+    change (OutputSize.value_base (shape_ma (Some [(repeat 7 28, [(repeat 1 32, 1)])]))) with 68. lia.
 Qed.
